@@ -470,7 +470,7 @@ def generate(rng, idx, tier, variant):
                 # (label histories: only the attribute that makes a later copy / reindex fail part-way is of interest)
                 ops.append({'op': 'add_attribute', 'obj': p, 'name': nm_, 'v': rng.randrange(100), 'shape': 'uncopyable'})
                 continue
-            ops.append({'op': 'add_attribute', 'obj': p, 'name': nm_, 'v': rng.randrange(100), 'shape': rng.choice(['int', 'int', 'list', 'dict', 'ndarray', 'tuple-of-list', 'tuple-of-ndarray', 'nested'] * 3 + ['uncopyable'])})
+            ops.append({'op': 'add_attribute', 'obj': p, 'name': nm_, 'v': rng.randrange(100), 'shape': rng.choice(['int', 'int', 'list', 'dict', 'ndarray', 'tuple-of-list', 'tuple-of-ndarray', 'nested'] * 3 + ['uncopyable', 'backref', 'backref'])})
         elif kind == 'set_attr_plain':
             r = rng.random()
             if variant == 'reindex' and r < 0.6:
@@ -1408,6 +1408,8 @@ def execute(schedule, ctx):
         elif kind == 'add_attribute':
             nm = op['name']
             val_ = attr_value(op.get('shape', 'int'), op['v'])
+            if isinstance(val_, BackRef):
+                val_.owner = x
             e = attempt(lambda: x.add_attribute(nm, val_))
             dup = nm in d['index'] or nm in before[i]['attributes']
             ctx.check('C09', 'add_attribute/duplicate-iff-raises', (e is not None) == dup, {'name': nm, 'exc': type(e).__name__ if e else None})
@@ -1737,6 +1739,48 @@ def execute(schedule, ctx):
         ctx.state([kind, outcome, [[str(a.dtype), canon(a.tolist())] for a in party.ref.values()][:6], bool(d['_strict'])])
 
 
+class BackRef:
+    """An attribute that refers back to the object it hangs on, and whose copy is made by asking that object for a copy /
+    reindexed version of itself (re-entrant use of copy() / reindex() from inside a copy under way)."""
+
+    busy = False
+
+    def __init__(self, owner, how):
+        self.owner, self.how, self.nested = owner, how, None
+
+    def __deepcopy__(self, memo):
+        new = BackRef(None, self.how)
+        o = self.owner
+        if o is not None and not BackRef.busy:
+            BackRef.busy = True
+            try:
+                new.nested = o.reindex(o.__dict__['span']) if self.how == 'reindex' else o.copy()
+            except Exception as e:
+                new.nested = e
+            finally:
+                BackRef.busy = False
+        return new
+
+
+def check_backrefs(y, x_obs, ctx, prop, sig):
+    """After a copy / reindex of an object carrying a BackRef: the nested copy that attribute asked for is an object of
+    its own, equal to the source - not the copy that was under way."""
+    for key, v in list(y.__dict__.items()):
+        if isinstance(v, BackRef) and v.nested is not None:
+            ctx.probe('re-entrant-copy-from-an-attribute:' + v.how)
+            ctx.fault('callback-into-library')
+            nested = v.nested
+            v.nested = None
+            if isinstance(nested, Exception):
+                ctx.probe('re-entrant-copy-from-an-attribute:raised')  # (a linker cannot be reindexed, say: the attribute's own business)
+                continue
+            ok = nested is not y and type(nested) is type(y)
+            ctx.check(prop, sig + '/nested-copy-is-an-object-of-its-own', ok, {'attribute': key, 'got': type(nested).__name__, 'is-the-outer-result': nested is y})
+            if ok:
+                now = O.obs(nested)
+                ctx.check(prop, sig + '/nested-copy-equals-the-source', now == x_obs, {'paths': O.diff(x_obs, now)[:4]})
+
+
 def attr_value(shape, v):
     """Values a user may hang on an object as a plain attribute, including containers of mutable things."""
     if shape == 'list':
@@ -1751,6 +1795,8 @@ def attr_value(shape, v):
         return (np.arange(2, dtype=float) + v, {'k': v})
     if shape == 'nested':
         return {'weights': np.ones(2) * v, 'names': ['x', 'y'], 'pair': ([v], (v,))}
+    if shape == 'backref':
+        return BackRef(None, 'reindex' if v % 2 else 'copy')  # (the owner is filled in when it is attached)
     if shape == 'uncopyable':
         # ordinary mutable contents next to something that cannot be deep-copied (a lock; likewise open files, generators)
         import threading
@@ -1809,6 +1855,7 @@ def do_spawn(fsic, parties, party, op, ctx, classes, class_before, spec):
     if route != 'sibling':
         a, b = O.obs(x), O.obs(y)
         ctx.check('C11', f'spawn/{route}/observationally-equal', a == b, {'paths': O.diff(a, b)[:5]})
+        check_backrefs(y, a, ctx, 'C11', f'spawn/{route}')
         if ctx.counters.get('steps', 0) >= 5:
             ctx.probe('copy-after>=5-operations')
     if len(parties) >= MAXP:
@@ -2142,6 +2189,7 @@ def do_reindex(fsic, parties, party, op, ctx, before_obs, universe_spec, spec):
                 ctx.check('C12', f'{sig}/contents', True)
     # attributes, lags/leads, strict carry over; the source is unchanged (checked by the caller against `before`)
     a, b = O.obs(x), O.obs(y)
+    check_backrefs(y, a, ctx, 'C12', f'{sig}/re-entrant')
     for key in ('strict', 'attributes', 'attrs', 'class'):
         ctx.check('C12', f'{sig}/carried-over/{key}', a[key] == b[key], {'paths': O.diff(a[key], b[key])[:4]})
     for key in ('lags', 'leads'):
